@@ -80,6 +80,7 @@ class Check:
         self.selftest: Optional[dict] = None
         self.sweep: Optional[dict] = None
         self.benign: Optional[dict] = None
+        self.nfcheck: Optional[dict] = None
 
     # -- recording ----------------------------------------------------------
     @contextlib.contextmanager
@@ -233,6 +234,7 @@ class Check:
                 "selftest": self.selftest,
                 "mutation_sweep": self.sweep,
                 "benign_sweep": self.benign,
+                "normal_form_soundness": self.nfcheck,
             },
             "assumptions": TRUSTED_BASE + self.assumptions,
             "wall_s": round(wall, 3),
